@@ -69,8 +69,10 @@ Qed.
 
 (* ---- tactics over the generated decision trees (never on let-names) *)
 (* the two normalising square roots are 1 on unit quaternions; done before zeta so that only they are visited *)
+(* lazymatch: commit to the first sqrt found (context matching sees through the lets, and backtracking over every
+   leaf's sqrt with a failing ring call costs 15 s) *)
 Ltac unit_norms :=
-  repeat match goal with
+  repeat lazymatch goal with
   | |- context [sqrt ?e] => let H := fresh in assert (H : e = 1) by hring; rewrite H; clear H; rewrite sqrt_1
   end;
   unfold Rdiv; rewrite ?Rinv_1, ?Rmult_1_r; cbv zeta.
